@@ -169,6 +169,28 @@ CLAIMED["C20"] = (
     "That the scanner/resolver hand the offending token to the report call is tested on mutants, not proved. "
     "Buffered (-B) ordering not modelled. Open finding: characters the scanner does not list are silently white space.",
     "DESIGN.md C20")
+CLAIMED["C17"] = (
+    "Rocq/Coq theorems that the scanner's and the generator's file rules (both regenerated from the sources by a "
+    "translator) agree for every accepted type shape and that the listed and created file sets are equal for every "
+    "schema; generated schemas through schema_scanner and exp2cxx vs the extracted model",
+    "tools/translate.py regenerates coq/gen/ScannerRule.v on every run from schemaScanner.cc (notGenerated(), "
+    "printSchemaFilenames(), writeLists()), classes_wrapper.cc (SCOPEPrint() loops, SCHEMAprint(), initUnityFiles(), "
+    "print_file_header()), classes_type.c (TYPEprint_descriptions(), TYPEget_RefTypeVarNm(), TYPEPrint()), selects.c "
+    "(TYPEselect_print()), genCxxFilenames.c, class_strings.[ch] and type.h. coq/GenFiles.v gives the data its "
+    "control-flow meaning; coq/Properties_C17.v proves (axiom-free): the two rules give the same answer for every "
+    "body kind the front end accepts as a defined type, with or without a head type; for every schema name and "
+    "declaration list, in whatever order each program walks it, the generator's file set = the scanner's list + the "
+    "two unity headers; two declarations share a file only if they are the same or an enumeration n meets a select "
+    "n_var. A rule change on either side regenerates the data and breaks rules_agree. The check builds the scanner "
+    "from /repo's sources as its CMakeLists does, runs both tools on generated schemas with every type shape "
+    "(renamed enumerations/selects incl. chains, aggregates of defined types, nested aggregates, selects of "
+    "selects, keyword-like and mixed-case names) and two-schema files, and compares the CMakeLists.txt lists, "
+    "directory/library name and announced count with the directory listing and with the extracted model; "
+    "declarations outside wf_kinds (where the rules differ) must be rejected by both tools.",
+    "Trusted: the pattern-matching translator, the Python parsing of CMakeLists.txt. That the parser/resolver give a "
+    "declaration the body kind/head the model is told is tested. Multi-pass output (suffix _1, _2 for mutually "
+    "dependent schemas) is not modelled.",
+    "DESIGN.md C17")
 CLAIMED["C19"] = (
     "Rocq/Coq invariants and accept-iff theorems for ARRAY, BAG, SET over all operation sequences; LIST "
     "refuted with witnesses; exhaustive short + random long sequences vs the Python runtime and an EXPRESS oracle",
